@@ -54,7 +54,7 @@
     maps (unique keys), which [HashMap] and [serde_json::Map] guarantee; every registry built
     by DEFINE satisfies [wf_reg] ([C06_reachable_wf]). *)
 From Coq Require Import ZArith NArith List.
-From Snel Require Import Base.Bytes Model.Json Model.Schema Model.SchemaReg Model.Validate Proofs.ValidateProofs.
+From Snel Require Import Base.Bytes Gen.Params Model.Json Model.Schema Model.SchemaReg Model.Validate Proofs.ValidateProofs.
 Import ListNotations.
 
 (** The handler accepts a STORE iff it conforms.  [CodeFloat] is the code's reading of "a float
@@ -186,3 +186,21 @@ Print Assumptions C06_text_reject_no_trace.
 Theorem C06_blank_spec : forall s, is_blank s = true <-> Blank s.
 Proof. exact is_blank_spec. Qed.
 Print Assumptions C06_blank_spec.
+
+(** Every alias of the regenerated table resolves to its type - as written, in upper case, as
+    "alias | null" and as "null | alias" (a finite sweep over the table). *)
+Theorem C06_alias_resolution : forallb alias_ok schema_alias_table = true /\ (1 <= length schema_alias_table)%nat.
+Proof. exact alias_resolution. Qed.
+Print Assumptions C06_alias_resolution.
+
+(** Alias lookup ignores ASCII letter case. *)
+Theorem C06_alias_case_insensitive : forall s s',
+  map to_lower s = map to_lower s' -> from_primitive_str s = from_primitive_str s'.
+Proof. exact alias_case_insensitive. Qed.
+Print Assumptions C06_alias_case_insensitive.
+
+(** Reading 9: a spec that is not a type silently declares a required string field. *)
+Theorem C06_unknown_spec_is_string : forall s,
+  from_spec_with_nullable s = None -> field_of_spec (SPrim s) = FPrim TString.
+Proof. exact unknown_spec_is_string. Qed.
+Print Assumptions C06_unknown_spec_is_string.
